@@ -46,7 +46,7 @@ func init() {
 		ID:     "C06",
 		Word32: true,
 		Level:  "model_checking",
-		Rule: "Scheduled part (E4 on the instrumented pbcmpl and iohelper packages): every unordered pair of {Marshal, Unmarshal} × 7 frames as a 2-thread program - each thread with its own message, writer and reader -, every schedule with at most 2 (thorough 3) preemptions; each thread must meet the per-frame obligations exactly as when it runs alone. Sequential part: a MESSAGE ZOO (25 messages of 15 generated types given by their hand-written wire bytes: every wire type, negative varints, nested messages, a map entry, and UNKNOWN FIELDS at top level and inside a nested message; each through Marshal / Size and back through Unmarshal into a fresh and into a dirty reused target, proto.Equal + identical re-encoding + identical Size, with a small frame behind it, under whole / 1-byte / 7-byte chunkings); STREAMS INTO ONE REUSED VERSIONED TARGET whose own GetVersion() is the version of the frame before (every ordered pair and triple of five semantic versions with different majors); MESSAGES WITH THEIR OWN CODEC of several shapes (a struct of fixed-size fields encoding as varints, a type whose Size() counts items and whose Unmarshal MERGES, a type with a ProtoSize() method, empty encodings: Marshal count = Size = 32 + own encoding, read back into fresh and dirty reused targets); HISTORIES ON ONE MESSAGE OBJECT (7 messages with a nested message - repeated element, map value, oneof member, two levels down -: sized by pbcmpl.Marshal / pbcmpl.Size / proto.Size / nothing, then changed INSIDE so that the nested message's encoded length changes, then marshalled without a sizing call in between: the frame is the hand-written encoding of the message as it is then); POLLING readers (every 2nd / 3rd / 5th call returns (0, nil) between pieces of 1 / 7 / 16 / 4096 bytes: hundreds of empty reads per frame, never two in a row; frames on both sides of the 1 MiB switch); a payload-length sweep (EVERY length 0..1100, every threshold length up to 70000 and every length 2^20-16..2^20+2 - bodies on both sides of the 1 MiB switch to an incremental read - × 4 message kinds: per-frame obligations, and read-back with a small frame behind it); E3 stateless deviation-bounded DFS over a scripted io.Reader: (frames) every frame of the alphabet {generated protobuf message, its versioned wrapper, legacy Marshal/Unmarshal message, its versioned variant} × payload lengths {0,1,2,31,32,33,127,128,129,5000, 2^20+1 (+65535, 65536, 2^20, 2^21+5 thorough)} × versions (every length 0..16, an interior NUL, a leading NUL, trailing spaces, bytes >= 0x80 that are not valid UTF-8): Marshal's count = bytes written = Size = HeaderSize + encoding length, wire bytes = independently built header + encoding, ReadHeader = (version, 32, length) consuming 32 bytes; " +
+		Rule: "Scheduled part (E4 on the instrumented pbcmpl and iohelper packages): every unordered pair of {Marshal, Unmarshal} × 7 frames as a 2-thread program - each thread with its own message, writer and reader -, every schedule with at most 2 (thorough 3) preemptions; each thread must meet the per-frame obligations exactly as when it runs alone. Sequential part: a MESSAGE ZOO (25 messages of 15 generated types given by their hand-written wire bytes: every wire type, negative varints, nested messages, a map entry, and UNKNOWN FIELDS at top level and inside a nested message; each through Marshal / Size and back through Unmarshal into a fresh and into a dirty reused target, proto.Equal + identical re-encoding + identical Size, with a small frame behind it, under whole / 1-byte / 7-byte chunkings); STREAMS INTO ONE REUSED VERSIONED TARGET whose own GetVersion() is the version of the frame before (every ordered pair and triple of five semantic versions with different majors); MESSAGES WITH THEIR OWN CODEC of several shapes (a struct of fixed-size fields encoding as varints, a type whose Size() counts items and whose Unmarshal MERGES, a type with a ProtoSize() method, empty encodings: Marshal count = Size = 32 + own encoding, read back into fresh and dirty reused targets); HISTORIES ON ONE MESSAGE OBJECT (7 messages with a nested message - repeated element, map value, oneof member, two levels down -: sized by pbcmpl.Marshal / pbcmpl.Size / proto.Size / nothing, then changed INSIDE so that the nested message's encoded length changes, then marshalled without a sizing call in between: the frame is the hand-written encoding of the message as it is then); POLLING readers (every 2nd / 3rd / 5th call returns (0, nil) between pieces of 1 / 7 / 16 / 4096 bytes: hundreds of empty reads per frame, never two in a row; frames on both sides of the 1 MiB switch); a payload-length sweep (EVERY length 0..1100, every threshold length up to 70000 and every length 2^20-16..2^20+2 - bodies on both sides of the 1 MiB switch to an incremental read - × 4 message kinds: per-frame obligations, and read-back with a small frame behind it); encoded BODY lengths m·(2^k − h) and ±1 for k = 9..17, h in {0, 8, 16, 32, 64}, m = 1..3 × 4 message kinds (piece sizes of a chunked writer or reader), same obligations; E3 stateless deviation-bounded DFS over a scripted io.Reader: (frames) every frame of the alphabet {generated protobuf message, its versioned wrapper, legacy Marshal/Unmarshal message, its versioned variant} × payload lengths {0,1,2,31,32,33,127,128,129,5000, 2^20+1 (+65535, 65536, 2^20, 2^21+5 thorough)} × versions (every length 0..16, an interior NUL, a leading NUL, trailing spaces, bytes >= 0x80 that are not valid UTF-8): Marshal's count = bytes written = Size = HeaderSize + encoding length, wire bytes = independently built header + encoding, ReadHeader = (version, 32, length) consuming 32 bytes; " +
 			"(histories) every stream of 1..3 frames over a 6-frame sub-alphabet, read back by k+1 Unmarshal calls under every reader chunking with ≤B deviations from 'deliver as much as asked' (deviations: return only j bytes for any j, deliver the last bytes together with io.EOF, one (0,nil) read) plus every uniform chunk size 1..len; every stream also through 11 standard-library reader types and every frame marshalled into 4 standard-library writer types (code may special-case dynamic types); every stream also MARSHALLED frame after frame into one writer (the last message object twice) and read back into reused target messages; three streams in which a frame with a body above 1 MiB is followed by further frames, under whole/uniform chunkings and one forced short read around every frame boundary, body start and power of two; each call must return the next message, its version, n = frame length = bytes actually pulled from the reader, and the extra call (0, cause io.EOF). " +
 			"states = choice-tree nodes (= executions), transitions = reader answers given. Non-trivial: executions with at least one deviation or a multi-frame stream.",
 		Assumptions: []string{
@@ -801,6 +801,62 @@ func c06Run(c *mc.Ctx) {
 			}
 			c.Count(int64(2*len(kinds)), int64(2*len(kinds)))
 			c.Add("payload_length_sweep_cases", int64(2*len(kinds)))
+		})
+	}
+	// BODY lengths at multiples of a piece size: an implementation that writes or reads the body in pieces
+	// has a piece size nobody outside knows - a power of two, or one minus the 32-byte header or a small
+	// round amount. Encoded BODY length (not payload length) = m·(2^k − h) and ±1 for k = 9..17, h in
+	// {0, 8, 16, 32, 64}, m = 1..3, four message kinds: per-frame obligations and the stream with a neighbour
+	{
+		kinds := []c06Frame{{Kind: "pb"}, {Kind: "legacy"}, {Kind: "pbv", Version: gen.Bytes("3.1")}, {Kind: "legacyv", Version: gen.Bytes("")}}
+		seenT := map[int]bool{}
+		var targets []int
+		for k := 9; k <= 17; k++ {
+			for _, h := range []int{0, 8, 16, 32, 64} {
+				for m := 1; m <= 3; m++ {
+					for d := -1; d <= 1; d++ {
+						t := m*(1<<uint(k)-h) + d
+						if !seenT[t] {
+							seenT[t] = true
+							targets = append(targets, t)
+						}
+					}
+				}
+			}
+		}
+		type pj struct{ f c06Frame }
+		var pjs []pj
+		var unreachable int64
+		for _, k := range kinds {
+			for _, t := range targets {
+				found := false
+				for d := 0; d <= 16 && d <= t; d++ {
+					f := k
+					f.Payload = t - d
+					if len(c06Wire(f))-32 == t {
+						pjs = append(pjs, pj{f})
+						found = true
+						break
+					}
+				}
+				if !found {
+					unreachable++
+				}
+			}
+		}
+		c.Set("piece_multiple_body_lengths_unreachable_for_a_kind", unreachable)
+		c.Expect(int64(2 * len(pjs)))
+		c.Par(len(pjs), func(i int) {
+			f := pjs[i].f
+			if g, w := c06MarshalOne(f); g != w {
+				c.Fail(17<<50|int64(i), "marshal", "marshal/piece-multiples", c06Case{Frames: []c06Frame{f}}, g, w)
+			}
+			fs := []c06Frame{f, {Kind: "pb", Payload: 3}}
+			if g, w, _ := c06Stream(fs, mc.NewEnv(nil), 0); g != w {
+				c.Fail(17<<50|1<<40|int64(i), "stream", "stream/piece-multiples", c06Case{Frames: fs}, g, w)
+			}
+			c.Count(2, 2)
+			c.Add("piece_multiple_body_length_cases", 2)
 		})
 	}
 	// POLLING readers: every 2nd / 3rd / 5th call returns (0, nil) - which io.Reader permits - in between
